@@ -67,9 +67,19 @@ void set_context(const std::string& ctx);
 // Engines that balance malloc/free of the code under test (leak oracle) ignore allocations made
 // while this depth is non-zero. All vsim and vfs entry points raise it for their own duration.
 extern int g_harness_depth;
+// Under ThreadSanitizer the runtime's own memory traffic (memcpy/memmove reach TSan through libc
+// interceptors even from uninstrumented code) is excluded with the ignore annotations; no-ops elsewhere.
+void tsan_ignore_begin();
+void tsan_ignore_end();
 struct Quiet {
-  Quiet() { g_harness_depth++; }
-  ~Quiet() { g_harness_depth--; }
+  Quiet() {
+    g_harness_depth++;
+    tsan_ignore_begin();
+  }
+  ~Quiet() {
+    tsan_ignore_end();
+    g_harness_depth--;
+  }
 };
 
 // ---------------------------------------------------------------- verdicts
